@@ -109,7 +109,8 @@ def run(src, name, props):
         dst = os.path.join(ROOT, "seeded", name)
         os.makedirs(dst, exist_ok=True)
         open(os.path.join(dst, "patch.diff"), "w").write(diff)
-        shutil.copy(os.path.join(src, "demo.rs"), dst)
+        if os.path.abspath(src) != os.path.abspath(dst):
+            shutil.copy(os.path.join(src, "demo.rs"), dst)
         meta.update({"what_i_ran": "confirmed in a scratch worktree of /repo HEAD: cargo test --workspace --no-fail-fast --offline passes with the change; tests/seed_demo.rs fails with it and passes without it. Then bin/check <id> --tier quick for %s, from a frozen snapshot of /verif whose harness builds that worktree with the change applied (lib/seedtest2.py); worktree reset afterwards." % props,
                      "result": result})
         json.dump(meta, open(os.path.join(dst, "meta.json"), "w"), indent=1)
